@@ -46,6 +46,8 @@ MCArgs(name, h, dep) ==
     [] name = "KvAnd"       -> {[obj |-> "a", other |-> V] : V \in {W \in Others(U) : Deg(W) = Deg(U)}}
     [] name = "KvSplit"     -> {[obj |-> "a", nodes |-> n] : n \in SeqsUpTo(NodePool(U), IF Rich THEN 2 ELSE 1)}
     [] name = "KvCopy"      -> {[obj |-> "a"]}
+    [] name = "FnBasis"     -> IF dep = 0 THEN {} ELSE
+                               {[obj |-> "a", weights |-> <<>>, j |-> Deg(U), u |-> u] : u \in ParamGrid(U, 1)}
     [] OTHER -> {}
 
 BreaksQ == <<R(0), R(1), R(3), R(4)>>
